@@ -72,9 +72,10 @@ theorem poolSub_ok {st : State} {log l : List Change} {id n : Nat} (h : poolSub 
 
 /-! ## inversion of the pipeline -/
 
-theorem checkSignature_ok {e : Env} {tx : Tx} {auth : List Addr} {a : Addr}
-    (h : checkSignature e tx auth = .ok a) :
-    ∃ pk, tx.pk = some pk ∧ pk.wf = true ∧ authenticates e tx pk = .ok () ∧ e.addrOf pk = some a ∧ a ∈ auth := by
+theorem checkSignature_ok {g : Bool} {e : Env} {tx : Tx} {auth : List Addr} {a : Addr}
+    (h : checkSignature g e tx auth = .ok a) :
+    ∃ pk, tx.pk = some pk ∧ pk.wf = true ∧ authenticates e tx pk = .ok () ∧ e.addrOf pk = some a ∧ a ∈ auth ∧
+      (g = true → pk.noSigner = false) := by
   unfold checkSignature at h
   split at h
   · cases h
@@ -86,20 +87,25 @@ theorem checkSignature_ok {e : Env} {tx : Tx} {auth : List Addr} {a : Addr}
       · rename_i hwf
         split at h
         · cases h
-        · rename_i hau
+        · rename_i hg
           split at h
           · cases h
-          · rename_i a' ha
+          · rename_i hau
             split at h
-            · rename_i hin
-              cases h
-              refine ⟨pk, hpk, ?_, hau, ha, hin⟩
-              simpa using hwf
             · cases h
+            · rename_i a' ha
+              split at h
+              · rename_i hin
+                cases h
+                refine ⟨pk, hpk, ?_, hau, ha, hin, ?_⟩
+                · simpa using hwf
+                · intro hgt
+                  simpa [hgt] using hg
+              · cases h
 
 theorem applyTx_ok {e : Env} {cfg : Cfg} {st : State} {tx : Tx} {nid : Bytes} {s : Addr} {log : List Change}
     (h : applyTx e cfg st tx nid = .ok (s, log)) :
-    ∃ m auth, precheck cfg tx = .ok m ∧ authorized e st m = .ok auth ∧ checkSignature e tx auth = .ok s ∧
+    ∃ m auth, precheck cfg tx = .ok m ∧ authorized e st m = .ok auth ∧ checkSignature cfg.requireSigner e tx auth = .ok s ∧
       effects e cfg st tx.content m s nid = .ok log := by
   unfold applyTx at h
   split at h
